@@ -31,6 +31,7 @@ def run(rep):
     dtchecks.numeric_inverse(rep, fnd, "C11", rep.tier)
     stagetrace.validate_dtcwt(rep, "C11", rep.tier, "DTCWTInverse")
     dtchecks.absent_batched(rep, fnd, "C11", rep.tier)
+    dtchecks.reuse_walk_dt(rep, "C11", rep.tier, "inverse")     # ONE inverse module along a walk of (batch, channels, size)
     dtchecks.absent_deep(rep, fnd, "C11", rep.tier)            # J = 4, 5, every dyadic size class, every absence subset outside F6c's region
     from .. import scalechecks
     scalechecks.dtcwt(rep, "C11", rep.tier, "inverse")          # large inputs (size thresholds)
